@@ -1037,7 +1037,7 @@ impl<'a> Gen<'a> {
             };
             self.ev.push(e);
         }
-        let n = if self.p.long_pm > 2 && self.r.chance(1, 8) { 65535u16 } else { *self.r.pick(&[255u16, 255, 256, 254, 511]) };
+        let n = if self.r.chance(1, if self.p.long_pm > 2 { 8 } else { 40 }) { 65535u16 } else { *self.r.pick(&[255u16, 255, 256, 254, 511]) };
         self.fire(F_SOAK_LOOP, Some(ch));
         self.ev.push(Ev::Repeat { k: k as u8, n });
         // second half
